@@ -93,6 +93,8 @@ func NewService(
 		DisableCompression:  DefaultDisableCompression,
 		TLSHandshakeTimeout: DefaultTLSHandshakeTimeout,
 		MaxIdleConnsPerHost: DefaultMaxIdleConnsPerHost,
+		// a backend that accepts the request and never answers must not hold it forever
+		ResponseHeaderTimeout: configuration.GetResponseTimeout(),
 		DialContext: func(ctx context.Context, network, addr string) (net.Conn, error) {
 			dialer := &net.Dialer{
 				Timeout:   configuration.GetConnectionTimeout(),
